@@ -274,6 +274,67 @@ pub fn check(mapfile: &str, body: &str, model_ill: bool) -> Out {
     out
 }
 
+/// Family (b): declared parameter types of functions, through the real ECL pipelines (TH07, TH08).
+/// Every parameter list of length 1..=3 over {int, float} x {named, unnamed}; every named parameter is used in one of
+/// six typed contexts in the body, and the sub is called from another sub with every argument list over
+/// {int literal, float literal, int register, float register} of arity n-1, n, n+1.  M4: a use is well-typed iff the
+/// context's type equals the parameter's DECLARED type; a call iff arity and every argument type match.
+fn param_cases() -> Vec<(String, bool, String)> {
+    let mut out = vec![];
+    let tys = ["int", "float"];
+    for n in 1..=3usize {
+        for code in 0..4usize.pow(n as u32) {
+            // per parameter: bit0 = type, bit1 = named
+            let ps: Vec<(usize, bool)> = (0..n).map(|i| { let c = code / 4usize.pow(i as u32) % 4; (c & 1, c & 2 != 0) }).collect();
+            let decl: Vec<String> = ps.iter().enumerate().map(|(i, (t, named))| if *named { format!("{} p{i}", tys[*t]) } else { tys[*t].to_string() }).collect();
+            let decl = decl.join(", ");
+            for (i, (t, named)) in ps.iter().enumerate() {
+                if !named { continue; }
+                let uses: [(String, Option<usize>); 6] = [
+                    (format!("$REG[10000] = p{i};"), Some(0)), (format!("%REG[10004] = p{i};"), Some(1)), (format!("if (p{i}) {{ }}"), Some(0)),
+                    (format!("%REG[10004] = p{i} + 1.0;"), Some(1)), (format!("$REG[10000] = p{i} * 2;"), Some(0)),
+                    (format!("times(p{i}) {{ }}"), Some(0)),
+                ];
+                for (u, want) in uses {
+                    let ill = want.map(|w| w != *t).unwrap_or(false);
+                    out.push((format!("void sub0() {{ }}\nvoid sub1({decl}) {{\n    {u}\n}}\nscript timeline0 {{ }}\n"), ill, format!("param-use:{decl}:{u}")));
+                }
+            }
+            // call sites
+            let atoms: [(&str, usize); 4] = [("1", 0), ("1.5", 1), ("$REG[10000]", 0), ("%REG[10004]", 1)];
+            for m in [n.saturating_sub(1), n, n + 1] {
+                if m == 0 { out.push((format!("void sub0() {{\n    sub1();\n}}\nvoid sub1({decl}) {{ }}\nscript timeline0 {{ }}\n"), true, format!("call:{decl}:()"))); continue; }
+                for ac in 0..4usize.pow(m as u32) {
+                    let args: Vec<(&str, usize)> = (0..m).map(|i| atoms[ac / 4usize.pow(i as u32) % 4]).collect();
+                    let ill = m != n || args.iter().zip(&ps).any(|(a, p)| a.1 != p.0);
+                    let al: Vec<&str> = args.iter().map(|a| a.0).collect();
+                    out.push((format!("void sub0() {{\n    sub1({});\n}}\nvoid sub1({decl}) {{ }}\nscript timeline0 {{ }}\n", al.join(", ")), ill, format!("call:{decl}:({})", al.join(", "))));
+                }
+            }
+        }
+    }
+    out
+}
+
+fn check_params(game: &str, src: &str, ill: bool, key: &str) -> Out {
+    use crate::drive::{self, CompileOpts, Kind, Tool};
+    let mut out = Out { class: String::new(), failures: vec![], type_checks: 0 };
+    // TH08 registers differ from TH07's: 10004 is an int register there
+    let src = if game == "th08" { src.replace("REG[10004]", "REG[10016]") } else { src.to_string() };
+    let tool = Tool::new(Kind::Ecl, game.parse().unwrap());
+    let c = drive::compile(tool, src.as_bytes(), &CompileOpts::default());
+    let detail = |extra: serde_json::Value| json!({"family": "params", "game": game, "source": src, "model_says_ill_typed": ill, "key": key, "info": extra});
+    if let Some(p) = &c.panic { out.class = "params:panic".into(); out.failures.push(Failure { signature: format!("C09:{}", p.signature()), detail: detail(json!({"panic": p.text})) }); return out; }
+    let accepted = c.bytes.is_some();
+    let type_error = c.diag.contains("type error") || c.diag.contains("wrong number of arguments") || c.diag.contains("expects");
+    out.class = format!("params:{}{}", if accepted { "accepted" } else if type_error { "rejected-type-error" } else { "rejected-other" }, if ill { "/ill" } else { "/well" });
+    let kind = key.split(':').next().unwrap_or("");
+    if accepted && ill { out.failures.push(Failure { signature: format!("C09:params:accepts-ill-typed:{kind}:{game}"), detail: detail(json!({"diag": c.diag})) }); }
+    if !accepted && !ill { out.failures.push(Failure { signature: format!("C09:params:rejects-well-typed:{kind}:{game}"), detail: detail(json!({"diag": c.diag.chars().take(800).collect::<String>()})) }); }
+    if !accepted && !drive::has_error(&c.diag) { out.failures.push(Failure { signature: format!("C09:params:rejected-without-error:{game}"), detail: detail(json!({"diag": c.diag})) }); }
+    out
+}
+
 pub fn run(tier: &str) -> Report {
     let mut rep = Report::new("C09", tier, "model_checking");
     let thorough = tier == "thorough";
@@ -299,8 +360,21 @@ pub fn run(tier: &str) -> Report {
         if i % 9001 == 0 { rep.sample(json!({"body": cases[i].0, "model_ill_typed": cases[i].1})); }
         rep.failures.extend(o.failures);
     }
+    // family (b): declared parameter types through the real ECL pipelines
+    let pcs = param_cases();
+    let pitems: Vec<(usize, &str)> = (0..pcs.len()).flat_map(|i| [(i, "th07"), (i, "th08")]).collect();
+    let presults = par_map(&pitems, Some(deadline), |_, &(i, g)| check_params(g, &pcs[i].0, pcs[i].1, &pcs[i].2));
+    for (k, r) in presults.into_iter().enumerate() {
+        let Some(o) = r else { rep.cap_hit = Some("wall cap (params family)".into()); continue; };
+        rep.evaluations += 1; rep.traces_validated += 1; rep.states += 1; rep.transitions += 1;
+        rep.outcome(&o.class);
+        if pcs[pitems[k].0].1 { rep.nontrivial += 1; }
+        if k % 4001 == 0 { rep.sample(json!({"family": "params", "source": pcs[pitems[k].0].0, "model_ill_typed": pcs[pitems[k].0].1})); }
+        rep.failures.extend(o.failures);
+    }
+    rep.extra.insert("params_family_cases".into(), json!(pitems.len()));
     rep.exhaustive = true;
-    rep.bound_completed = format!("deviations<={bound} (the nesting position is a free choice: full product), expression depth<={depth}; 18 statement contexts x 9 nesting positions x 20 expression shapes (incl. difficulty switches with omitted cases) x 13 atoms of all types");
+    rep.bound_completed = format!("(b) every ECL parameter list of length 1..=3 over {{int, float}} x {{named, unnamed}} x 6 typed uses of each named parameter + every call of arity n-1..n+1 over 4 argument atoms, TH07 and TH08 ({} cases); (a) deviations<={bound} (the nesting position is a free choice: full product), expression depth<={depth}; 18 statement contexts x 9 nesting positions x 20 expression shapes (incl. difficulty switches with omitted cases) x 13 atoms of all types", pitems.len());
     rep.rule = "E-DFS over an untyped statement/expression grammar whose default alternatives are well-typed; every other alternative (an atom, operator, cast, sigil, arity or variable of another type) is one deviation, so the single-point mutations of every base program are covered; non-trivial = M4 judges the program ill-typed".into();
     rep.assumptions = vec!["M4 reference typer (harness), written from the documented rules".into(), "AstVm::eval for the value-type clause".into()];
     rep.explanation = "Ok/Err of passes::type_check::run compared with M4's verdict at every nesting position; for accepted programs Expr::compute_ty of every subexpression compared with the type of its evaluated value".into();
@@ -309,8 +383,14 @@ pub fn run(tier: &str) -> Report {
 
 pub fn replay(detail: &serde_json::Value) -> i32 {
     let table = Table::new(&TableCfg::FULL);
-    let body = detail["body"].as_str().unwrap();
     let ill = detail["model_says_ill_typed"].as_bool().unwrap_or(false);
+    if detail["family"] == "params" {
+        let o = check_params(detail["game"].as_str().unwrap(), detail["source"].as_str().unwrap(), ill, detail["key"].as_str().unwrap_or(""));
+        println!("class: {}", o.class);
+        for f in &o.failures { println!("FAIL {}\n{}", f.signature, serde_json::to_string_pretty(&f.detail).unwrap()); }
+        return if o.failures.is_empty() { 0 } else { 1 };
+    }
+    let body = detail["body"].as_str().unwrap();
     let o = check(&table.mapfile_text(REGS), body, ill);
     println!("class: {}", o.class);
     for f in &o.failures { println!("FAIL {}\n{}", f.signature, serde_json::to_string_pretty(&f.detail).unwrap()); }
